@@ -8,6 +8,6 @@ require (
 	pgregory.net/rapid v1.3.0
 )
 
-require github.com/Breeze0806/mysql v1.4.2 // indirect
+require github.com/Breeze0806/mysql v1.4.2
 
 replace github.com/Breeze0806/gobinlog => /repo
